@@ -267,6 +267,7 @@ class Interp:
             self.subs[s.name.lower()] = s
         self.cur_line = None
         self.err_line = None
+        self.lines = []          # scripted INPUT response lines
 
     # -- storage -----------------------------------------------------
     def _mk_storage(self, name, astype):
@@ -672,6 +673,8 @@ class Interp:
                 self.apply_seeds()
             else:
                 self.trace.append(('pcspkr', 'beep'))
+        elif k == 'input':
+            self.do_input(s)
         elif k in ('label', 'lineno', 'raw', 'data'):
             pass
         elif k == 'line':
@@ -806,6 +809,28 @@ class Interp:
                 return
         if s[3] is not None:
             self.block(s[3])
+
+    def do_input(self, s):
+        from props.ob_units import ref_input_line
+        prompt, sep, lvs = s[1], s[2], s[3]
+        ptext = prompt if prompt is not None else ''
+        question = prompt is None or sep == ';'
+        types = [etype(lv, self.prog) for lv in lvs]
+        while True:
+            self.tick()
+            self.trace.append(('terminal', 'print', ptext))
+            if question:
+                self.trace.append(('terminal', 'print', '? '))
+            self.trace.append(('terminal', 'input', 0))
+            if not self.lines:
+                raise RefBudget('input script exhausted')
+            line = self.lines.pop(0)
+            vals = ref_input_line(line, types)
+            if vals is not None:
+                break
+            self.trace.append(('terminal', 'print', 'Redo from start\r\n'))
+        for lv, t, v in zip(lvs, types, vals):
+            self.assign(lv, t, v)
 
     def do_print(self, items):
         buf = Rope([])
